@@ -75,4 +75,11 @@ ClrWaitWrong(t) ==
   /\ pc[t] = "ClrWait"
   /\ IF table # loc[t].tb THEN Goto(t, "ClrLoadBin") ELSE UNCHANGED pc
   /\ UNCHANGED loc /\ UnchHeap /\ UnchTab /\ UnchCtl /\ UnchHist
+\* second liveness self-test: try_presize retries its initialisation CAS with the size_ctl value it read before the
+\* failure (no re-read), so once another thread has initialised the table the reserve() call spins for ever
+PsCasInitWrong(t) ==
+  /\ pc[t] = "PsCasInit"
+  /\ IF sizeCtl = loc[t].sc THEN sizeCtl' = -1 /\ Goto(t, "PsInitRecheck")
+                           ELSE UNCHANGED sizeCtl /\ UNCHANGED pc
+  /\ UNCHANGED <<transferIndex, count, loc>> /\ UnchHeap /\ UnchTab /\ UnchHist
 =============================================================================
